@@ -27,6 +27,8 @@ SITES = [
        {"array": "a", "f": "(f : ℂ)"}, ["a", "f"], modes=["cplx"], param_types={"f": "ℝ"}),
     _s("Probe", "planeWaveValue", _W, "PlaneWave._calculate_array", ("callarg", "full", 1, 0),
        {"np.prod(waves_builder.gpts)": "n"}, ["n"]),
+    # order of operations of the probe pipeline (top-level calls of Probe._calculate_array, in source order)
+    dict(gen="Probe", name="probeOps", table=True, kind="call_sequence", file=_W, func="Probe._calculate_array", modes=["rat"]),
     # probe-forming aperture
     _s("Probe", "softDenominator", _T, "soft_aperture", ("assign", "denominator", 0), _SA, ["phi", "s0", "s1"]),
     _s("Probe", "softDenominatorAtZero", _T, "soft_aperture", ("subscript_value", "denominator", 0), _SA, []),
